@@ -135,9 +135,15 @@ impl GuardBuf {
     }
     /// number of accessible bytes before / after the data (distance to the guards)
     pub fn slack_before(&self) -> usize {
+        if self.map.is_null() {
+            return 0;
+        }
         self.data as usize - (self.map as usize + PAGE)
     }
     pub fn slack_after(&self) -> usize {
+        if self.map.is_null() {
+            return 0;
+        }
         (self.map as usize + self.map_len - PAGE) - (self.data as usize + self.len)
     }
 }
